@@ -4,6 +4,7 @@ import (
 	"encoding/json"
 	"fmt"
 	"math"
+	"os"
 	"reflect"
 	"strconv"
 	"strings"
@@ -87,6 +88,16 @@ func c11Sweep(t failer, test string, in []byte) (n uint64, feasible bool, nbudge
 				violation(t, "C11", test, c, "the same grammar.MaxExpressions(%d) option value, given to a second and third parse: %d steps / %s, the first parse of %s took %d steps / %s", b, steps2, errText(err2), c.InputQ, steps, errText(err))
 			}
 		}
+		if nbudgets%4 == 1 && (feasible || b != 0) && len(in) < 1<<16 {
+			// the budget also governs the file entry point
+			if path := c11TempFile(in); path != "" {
+				fast, ferr := grammar.ParseFile(path, grammar.MaxExpressions(b))
+				// (errors of ParseFile carry the file name in front of every message)
+				if strings.ReplaceAll(errText(ferr), path+":", "") != errText(err) || !reflect.DeepEqual(fast, ast) {
+					violation(t, "C11", test, c, "grammar.ParseFile with MaxExpressions(%d) on a file holding %s: %v / %s, grammar.Parse gives %v / %s", b, c.InputQ, fast != nil, errText(ferr), ast != nil, errText(err))
+				}
+			}
+		}
 		ev, cerr := bexpr.CreateEvaluator(string(in), bexpr.WithMaxExpressions(b))
 		nbudgets++
 		if b != 0 && b < math.MaxUint64 && steps > b+1 {
@@ -141,6 +152,34 @@ func c11Sweep(t failer, test string, in []byte) (n uint64, feasible bool, nbudge
 		}
 	}
 	return N, feasible, nbudgets
+}
+
+// c11TempFile writes b to this process' scratch file and returns its path ("" when that is not possible).
+var c11Scratch string
+
+func c11TempFile(b []byte) string {
+	if c11Scratch == "" {
+		f, err := os.CreateTemp("", "verif-c11-*.bexpr")
+		if err != nil {
+			return ""
+		}
+		c11Scratch = f.Name()
+		f.Close()
+	}
+	if err := os.WriteFile(c11Scratch, b, 0o600); err != nil {
+		return ""
+	}
+	return c11Scratch
+}
+
+func TestMain(m *testing.M) {
+	code := m.Run()
+	for _, p := range []string{c11Scratch, c16Scratch} {
+		if p != "" {
+			os.Remove(p)
+		}
+	}
+	os.Exit(code)
 }
 
 func init() {
